@@ -3545,7 +3545,13 @@ impl LuaCommandAdapter {
         parsed.db_override = Some(db_index);
         
         // Execute with guaranteed atomicity for multi-step scripts
-        self.executor.execute(parsed)
+        match self.executor.execute(parsed) {
+            // the error reply of the directly issued command, with its error class
+            Err(FerrousError::Storage(crate::error::StorageError::WrongType)) | Err(FerrousError::Command(CommandError::WrongType)) => {
+                Ok(RespFrame::error("WRONGTYPE Operation against a key holding the wrong kind of value"))
+            }
+            other => other,
+        }
     }
 }
 
